@@ -16,6 +16,13 @@ G  TLC Gen_Workers enumerates schedules (start-up interleavings, page-work
         one operation at a time by the parent, following the TLC schedule by process
         choice only.  Real results are compared with a serial run and with TLC's
         prediction.
+L  Lifetimes: every context ends with close_db_conn (one more schedule point), and a
+        creating context ("driver", process 0: creates the database file with the real
+        library, stores + commits the pages, stays open) may be present; Gen_Workers_life
+        enumerates every placement of the closes (driver and workers) relative to the
+        start-up and page work of the workers, so contexts close while others work and
+        others open after a close.  What close_db_conn does to the environment is recorded
+        in the close event (Trace_Workers: a close touches no file).
 V  The (process, operation, result) trace actually performed is validated by TLC
         against Trace_Workers (operation-level semantics of the same module), for the
         replays and for a stress mode: 2..16 free-running workers with random start
@@ -47,7 +54,9 @@ COALESCE = {"unlink", "script", "read"}
 CLS_OF_LABEL = {
     "exists": "exists", "unlink": "unlink", "rename": "rename", "connect": "connect", "script": "script",
     "cursor": "cursor", "read1": "read", "bootcheck": "bootcheck", "insert": "write", "commit": "commit", "read2": "read",
+    "close": "close",
 }
+CLOSE_OPS = {"commit:", "close:"}  # what close_db_conn is expected to do to the environment
 DEV_OF_FLAG = {"raced": "RestoreRaceOnStartup", "snapfail": "BootstrapUnderSnapshot"}
 
 USTRING = r"""
@@ -303,6 +312,10 @@ def install_wrappers(dbdir: str, sync) -> None:
             base = super()
             return sync("commit", "", lambda: base.commit(), lambda r: "ok")
 
+        def close(self):
+            base = super()
+            return sync("close", "", lambda: base.close(), lambda r: "ok", inner_only=True)
+
     def connect(database, *a, **k):
         if not under(database):
             return o_connect(database, *a, **k)
@@ -312,13 +325,20 @@ def install_wrappers(dbdir: str, sync) -> None:
     sqlite3.connect = connect
 
 
-def child_main(idx: int, dbdir: str, order: list, cursor: bool, mode: str, rfd: int, wfd: int, seed: int, offset: float) -> None:
+def child_main(idx: int, dbdir: str, order: list, cursor: bool, mode: str, rfd: int, wfd: int, seed: int, offset: float,
+               life=("hold", 0.0), build=None) -> None:
     """Runs in a forked child.  mode 'control': every wrapped operation is announced and
-    waits for the parent's grant; mode 'free': operations are only time-stamped."""
+    waits for the parent's grant; mode 'free': operations are only time-stamped.
+    The context ends with close_db_conn (one step "close"; the environment operations
+    performed inside it are its result).  life (free mode): ("now", 0) close at once,
+    ("delay", s) close after s seconds, ("hold", 0) close when the parent says so.
+    build = {"boot": bool}: this is the creating context (driver): it creates the database
+    file at the path, stores and commits the pages, processes no page."""
     _quiet()
     out = os.fdopen(wfd, "w", buffering=1)
     rng = random.Random(seed)
     log = []
+    st = {"phase": "setup" if build is not None else "run", "ops": []}
 
     def send(obj):
         out.write(json.dumps(obj) + "\n")
@@ -329,7 +349,19 @@ def child_main(idx: int, dbdir: str, order: list, cursor: bool, mode: str, rfd: 
         if not b:
             os._exit(0)  # parent gone
 
-    def sync(cls, detail, fn, summarise):
+    def sync(cls, detail, fn, summarise, inner_only=False):
+        if st["phase"] == "setup":
+            return fn()
+        if st["phase"] == "close":  # part of the step "close"
+            try:
+                r = fn()
+            except BaseException as e:
+                st["ops"].append(f"{cls}:{detail}!{type(e).__name__}")
+                raise
+            st["ops"].append(f"{cls}:{detail}")
+            return r
+        if inner_only:
+            return fn()
         if mode == "control":
             send({"ev": "want", "cls": cls, "detail": detail})
             wait_grant()
@@ -356,25 +388,61 @@ def child_main(idx: int, dbdir: str, order: list, cursor: bool, mode: str, rfd: 
     if offset:
         time.sleep(offset)
     results, exc = {}, None
+    ctx = None
     try:
         from wikitextprocessor import Wtp
 
-        ctx = Wtp(db_path=os.path.join(dbdir, DBNAME), quiet=True)
-        it = None
-        if cursor:
-            it = ctx.get_all_pages([0])
-            next(it, None)  # the iterator stays open while the pages are processed
-        for t in order:
-            body = ctx.get_page_body(t, 0)
-            if body is None:
-                results[t] = None
-                continue
-            ctx.start_page(t)
-            results[t] = ctx.expand(body)
+        if build is not None:
+            ctx = Wtp(db_path=os.path.join(dbdir, DBNAME), quiet=True)
+            for t, ns, body, model in version_pages("M"):
+                ctx.add_page(t, ns, body=body, model=model)
+            if build.get("boot"):
+                ctx.add_page(BOOT_TITLE, 828, body="", model="Scribunto")
+            ctx.db_conn.commit()
+            st["phase"] = "run"
+            if mode == "free":
+                send({"ev": "idle"})  # database ready: the workers may be started
+                wait_grant()
+        else:
+            ctx = Wtp(db_path=os.path.join(dbdir, DBNAME), quiet=True)
+            it = None
+            if cursor:
+                it = ctx.get_all_pages([0])
+                next(it, None)  # the iterator stays open while the pages are processed
+            for t in order:
+                body = ctx.get_page_body(t, 0)
+                if body is None:
+                    results[t] = None
+                    continue
+                ctx.start_page(t)
+                results[t] = ctx.expand(body)
     except BaseException as e:
         exc = type(e).__name__ + ": " + str(e)[:120]
+    if ctx is not None:
+        # the context object exists: it is closed - when the schedule says so
+        if mode == "control":
+            send({"ev": "want", "cls": "close", "detail": ""})
+            wait_grant()
+        elif life[0] == "delay":
+            time.sleep(life[1])
+        elif life[0] == "hold":
+            send({"ev": "idle"})
+            wait_grant()
+        st["phase"], st["ops"] = "close", []
+        t0 = time.monotonic()
+        try:
+            ctx.close_db_conn()
+            cres, cexc = {"ops": st["ops"]}, False
+        except BaseException as e:
+            cres, cexc = type(e).__name__ + ": " + str(e)[:80], True
+            exc = exc or ("close_db_conn: " + cres)
+        st["phase"] = "setup"
+        if mode == "control":
+            send({"ev": "done", "cls": "close", "result": cres, "exc": cexc})
+        else:
+            log.append(["close", "", t0, time.monotonic(), cres, cexc])
     send({"ev": "finished", "results": results, "exc": exc, "log": log})
-    wait_grant()  # keep the connection open until everybody is done
+    wait_grant()  # the process stays until everybody is done
     os._exit(0)
 
 
@@ -391,29 +459,33 @@ class Child:
         self.final = None
 
 
-def spawn(n: int, dbdir: str, orders: list, cursor: bool, mode: str, seed: int, offsets: list) -> list:
-    kids = []
-    fds = []
-    for i in range(1, n + 1):
-        c2p_r, c2p_w = os.pipe()
-        p2c_r, p2c_w = os.pipe()
-        pid = os.fork()
-        if pid == 0:
-            try:
-                for fd in fds + [c2p_r, p2c_w]:
-                    os.close(fd)
-                child_main(i, dbdir, orders[i - 1], cursor, mode, p2c_r, c2p_w, seed * 1000 + i, offsets[i - 1])
-            except BaseException:
-                import traceback
+def spawn_one(idx: int, dbdir: str, order: list, cursor: bool, mode: str, seed: int, offset: float, fds: list,
+              life=("hold", 0.0), build=None) -> Child:
+    """fds: parent-side pipe ends of the children spawned so far (closed in the new child)."""
+    c2p_r, c2p_w = os.pipe()
+    p2c_r, p2c_w = os.pipe()
+    pid = os.fork()
+    if pid == 0:
+        try:
+            for fd in fds + [c2p_r, p2c_w]:
+                os.close(fd)
+            child_main(idx, dbdir, order, cursor, mode, p2c_r, c2p_w, seed * 1000 + idx, offset, life, build)
+        except BaseException:
+            import traceback
 
-                traceback.print_exc()
-            finally:
-                os._exit(4)
-        os.close(c2p_w)
-        os.close(p2c_r)
-        fds += [c2p_r, p2c_w]
-        kids.append(Child(i, pid, c2p_r, p2c_w))
-    return kids
+            traceback.print_exc()
+        finally:
+            os._exit(4)
+    os.close(c2p_w)
+    os.close(p2c_r)
+    fds += [c2p_r, p2c_w]
+    return Child(idx, pid, c2p_r, p2c_w)
+
+
+def spawn(n: int, dbdir: str, orders: list, cursor: bool, mode: str, seed: int, offsets: list, fds=None, lives=None) -> list:
+    fds = [] if fds is None else fds
+    return [spawn_one(i, dbdir, orders[i - 1], cursor, mode, seed, offsets[i - 1], fds, (lives[i - 1] if lives else ("hold", 0.0)))
+            for i in range(1, n + 1)]
 
 
 def pump(kids: list, timeout: float) -> bool:
@@ -440,6 +512,8 @@ def pump(kids: list, timeout: float) -> bool:
                 c.state, c.want = "want", m
             elif m["ev"] == "done":
                 c.last = m
+            elif m["ev"] == "idle":
+                c.state = "idle"
             elif m["ev"] == "finished":
                 c.state, c.final = "finished", m
     return got
@@ -475,6 +549,11 @@ def summarise(cls: str, results: list, tracked: set):
             if "disk I/O error" in s:
                 return "ioerr"
             return "err:" + s[:60]
+    if cls == "close":
+        # close_db_conn commits and closes its connection; anything else it does to the files
+        # of the database is part of the result
+        extra = [x for x in results[-1]["result"]["ops"] if x not in CLOSE_OPS]
+        return "ok" if not extra else "touch:" + ",".join(extra)[:80]
     if cls == "exists":
         return "yes" if results[-1]["result"] else "no"
     if cls == "bootcheck":
@@ -568,20 +647,50 @@ def classify_worker(final, serial_results, order) -> str:
     return "ok"
 
 
-def run_controlled(scn_dir: str, work: Path, n: int, sched: list, orders: list, cursor: bool, seed: int):
-    """Replay one schedule [(p, label)] on n real processes.  -> (trace, finals, store, diverged)"""
+class Finals(list):
+    """Final messages of the workers; drv_exc: failure of the creating context (None: none / no such context)."""
+    drv_exc = None
+
+
+def finals_of(kids) -> "Finals":
+    f = Finals(c.final if c.state == "finished" else None for c in kids if c.idx > 0)
+    for c in kids:
+        if c.idx == 0:
+            f.drv_exc = "did not finish" if c.state != "finished" else c.final["exc"]
+    return f
+
+
+def make_workdir(scn_dir: str, work: Path, drv) -> None:
+    """Without a creating context: a copy of the prepared scenario (database closed cleanly by
+    its builder).  With one: an empty directory - the driver process creates the database."""
     shutil.rmtree(work, ignore_errors=True)
-    shutil.copytree(scn_dir, work)
-    kids = spawn(n, str(work), orders, cursor, "control", seed, [0] * n)
+    if drv is None:
+        shutil.copytree(scn_dir, work)
+    else:
+        work.mkdir(parents=True)
+
+
+def run_controlled(scn_dir: str, work: Path, n: int, sched: list, orders: list, cursor: bool, seed: int, drv=None):
+    """Replay one schedule [(p, label)] on n real processes (p = 0: the creating context, present
+    when drv = {"boot": bool}).  -> (trace, finals, store, diverged)"""
+    make_workdir(scn_dir, work, drv)
+    fds: list = []
+    kids = []
+    if drv is not None:
+        kids.append(spawn_one(0, str(work), [], False, "control", seed, 0, fds, build=drv))
+    kids += spawn(n, str(work), orders, cursor, "control", seed, [0] * n, fds)
+    byidx = {c.idx: c for c in kids}
     trace: list = []
     tracked = tracked_titles()
     diverged = 0
     try:
         if not wait_for(kids, lambda: all(c.state in ("want", "finished", "dead") for c in kids), 20):
             raise RuntimeError("workers did not start")
+        if drv is not None and byidx[0].state != "want":
+            raise RuntimeError("the creating context could not build the database: " + json.dumps(byidx[0].final))
         for p, label in sched:
-            c = kids[p - 1]
-            if c.state != "want":
+            c = byidx.get(p)
+            if c is None or c.state != "want":
                 diverged += 1
                 continue
             step(kids, c, tracked, trace, label)
@@ -595,20 +704,41 @@ def run_controlled(scn_dir: str, work: Path, n: int, sched: list, orders: list, 
                     step(kids, c, tracked, trace)
                     extra += 1
         diverged += extra
-        finals = [c.final if c.state == "finished" else None for c in kids]
+        finals = finals_of(kids)
     finally:
         kill_all(kids)
     store = read_store(work)
     return trace, finals, store, diverged
 
 
-def run_free(scn_dir: str, work: Path, n: int, orders: list, cursor: bool, seed: int, offsets: list, timeout=60.0):
-    shutil.rmtree(work, ignore_errors=True)
-    shutil.copytree(scn_dir, work)
-    kids = spawn(n, str(work), orders, cursor, "free", seed, offsets)
+def run_free(scn_dir: str, work: Path, n: int, orders: list, cursor: bool, seed: int, offsets: list, timeout=60.0,
+             lives=None, drv=None):
+    """lives: per worker ("now"|"delay"|"hold", seconds) - when the context is closed after the page
+    work (default: all hold their context open until everybody is done, then close);
+    drv = {"boot": bool, "life": (...)}: a creating context (process 0) is open when the workers start."""
+    make_workdir(scn_dir, work, drv)
+    fds: list = []
+    kids = []
     try:
-        wait_for(kids, lambda: all(c.state in ("finished", "dead") for c in kids), timeout)
-        finals = [c.final if c.state == "finished" else None for c in kids]
+        if drv is not None:
+            d = spawn_one(0, str(work), [], False, "free", seed, 0, fds, life=tuple(drv["life"]), build={"boot": drv["boot"]})
+            kids.append(d)
+            if not wait_for(kids, lambda: d.state in ("idle", "finished", "dead"), 30) or d.state != "idle":
+                raise RuntimeError("the creating context could not build the database: " + json.dumps(d.final))
+        kids += spawn(n, str(work), orders, cursor, "free", seed, offsets, fds, lives)
+        if drv is not None:
+            grant(kids[0])
+        t_end = time.monotonic() + timeout
+        # contexts that hold until everybody is done are released when nobody is at work any more
+        while time.monotonic() < t_end:
+            wait_for(kids, lambda: all(c.state in ("idle", "finished", "dead") for c in kids), max(0.1, t_end - time.monotonic()))
+            idle = [c for c in kids if c.state == "idle"]
+            if not idle:
+                break
+            for c in idle:
+                grant(c)
+        finals = finals_of(kids)
+        allfinals = [c.final if c.state == "finished" else None for c in kids]
     finally:
         kill_all(kids)
     store = read_store(work)
@@ -616,7 +746,7 @@ def run_free(scn_dir: str, work: Path, n: int, orders: list, cursor: bool, seed:
     # takes effect at its completion, except write (lock acquisition) and commit whose
     # effect lies somewhere in their interval
     ops = []
-    for c, f in zip(kids, finals):
+    for c, f in zip(kids, allfinals):
         for cls, detail, t0, t1, res, exc in (f or {}).get("log", []):
             ops.append((t1, t0, c.idx, cls, {"result": res, "exc": exc}))
     ops.sort(key=lambda x: x[0])
@@ -627,7 +757,7 @@ def run_free(scn_dir: str, work: Path, n: int, orders: list, cursor: bool, seed:
     for t1, t0, p, cls, r in ops:
         j = last_of.get(p)
         us1 = int((t1 - base) * 1e6) + 10
-        us0 = int((t0 - base) * 1e6) + 10 if cls in ("commit", "write") else us1
+        us0 = int((t0 - base) * 1e6) + 10 if cls in ("commit", "write", "close") else us1
         w0 = int((t0 - base) * 1e6) + 10
         if j is not None and trace[j]["cls"] == cls and cls in COALESCE:
             trace[j]["_rs"].append(r)
@@ -731,17 +861,39 @@ def replay_chunk(chunk):
             orders = [rng.sample(titles(), NPAGES) for _ in range(n)]
             sched = [(e["p"], e["l"]) for e in case["sched"]]
             try:
-                trace, finals, store, diverged = run_controlled(scns[key], wd / "d", n, sched, orders, bool(scn["cursor"]), cid)
+                trace, finals, store, diverged = run_controlled(scns[key], wd / "d", n, sched, orders, bool(scn["cursor"]), cid,
+                                                                drv={"boot": bool(scn["boot"])} if scn.get("drv") else None)
             except RuntimeError as e:
                 out.append({"cid": cid, "error": str(e)})
                 continue
             real = [classify_worker(f, ref[key]["results"], o) for f, o in zip(finals, orders)]
             out.append({"cid": cid, "trace": trace, "real": real, "store_ok": store_ok(store, ref[key]), "diverged": diverged,
-                        "orders": orders, "excs": [f and f["exc"] for f in finals],
+                        "orders": orders, "excs": [f and f["exc"] for f in finals], "drv_exc": finals.drv_exc,
                         "store": None if store is None else {"npages": None if store["rows"] is None else len(store["rows"]), "integrity": store["integrity"]}})
     finally:
         shutil.rmtree(wd, ignore_errors=True)
     return out
+
+
+def stress_params(sid: int, n: int, boot: bool, lifemode: str, drv: bool):
+    """Seeded parameters of one free-running run.  lifemode "hold": tight start offsets, every context
+    stays open until all are done (then closes); "mixed": start offsets up to 0.4 s and every context
+    closes at once / after a random delay / at the end, so contexts open after others have closed."""
+    rng = random.Random(common.seed() * 104729 + sid)
+    orders = [rng.sample(titles(), NPAGES) for _ in range(n)]
+    offsets = [rng.random() * 0.02 for _ in range(n)]
+    if lifemode == "hold":
+        return orders, offsets, None, ({"boot": boot, "life": ("hold", 0.0)} if drv else None)
+    lrng = random.Random(common.seed() * 7717 + sid)
+    offsets = [lrng.random() * 0.4 for _ in range(n)]
+
+    def life():
+        k = lrng.choice(("now", "delay", "delay", "hold"))
+        return (k, lrng.random() * 0.25 if k == "delay" else 0.0)
+
+    lives = [life() for _ in range(n)]
+    drvp = {"boot": boot, "life": ("delay", lrng.random() * 0.5) if lrng.random() < 0.8 else ("hold", 0.0)} if drv else None
+    return orders, offsets, lives, drvp
 
 
 def stress_chunk(chunk):
@@ -752,13 +904,16 @@ def stress_chunk(chunk):
     out = []
     wd = Path(tempfile.mkdtemp(prefix="c20s-", dir=str(root)))
     try:
-        for sid, n, bak, boot, cursor in chunk:
-            rng = random.Random(common.seed() * 104729 + sid)
-            orders = [rng.sample(titles(), NPAGES) for _ in range(n)]
-            offsets = [rng.random() * 0.02 for _ in range(n)]
-            trace, finals, store = run_free(scns[(bak, boot)], wd / "d", n, orders, cursor, sid, offsets)
+        for sid, n, bak, boot, cursor, lifemode, drv in chunk:
+            orders, offsets, lives, drvp = stress_params(sid, n, boot, lifemode, drv)
+            try:
+                trace, finals, store = run_free(scns[(bak, boot)], wd / "d", n, orders, cursor, sid, offsets, lives=lives, drv=drvp)
+            except RuntimeError as e:
+                out.append({"sid": sid, "error": str(e)})
+                continue
             real = [classify_worker(f, ref[(bak, boot)]["results"], o) for f, o in zip(finals, orders)]
-            out.append({"sid": sid, "n": n, "scn": {"bak": bak, "boot": boot, "cursor": cursor}, "trace": trace, "real": real,
+            out.append({"sid": sid, "n": n, "scn": {"bak": bak, "boot": boot, "cursor": cursor, "drv": bool(drv)}, "life": lifemode,
+                        "trace": trace, "real": real, "drv_exc": finals.drv_exc,
                         "store_ok": store_ok(store, ref[(bak, boot)]), "excs": [f and f["exc"] for f in finals],
                         "store": None if store is None else {"npages": None if store["rows"] is None else len(store["rows"]), "integrity": store["integrity"]}})
     finally:
@@ -803,17 +958,22 @@ def explained_by(verdict) -> bool:
 def judge(o: Outcome, case: dict, real: list, st_ok: bool, predicted, verdict, drift_only_trace=False):
     """predicted: {res, store, raced, snapfail} from Gen (or None); verdict: Trace_Workers verdict."""
     o.evaluations += 1
-    holds = all(r == "ok" for r in real) and st_ok
+    drv_exc = case.get("drv_exc")   # the model: closing the creating context never fails
+    holds = all(r == "ok" for r in real) and st_ok and not drv_exc
     if holds:
         if predicted and (any(r != "ok" for r in predicted["res"]) or not predicted["store"]):
             o.note_drift({"case": case, "why": "the model predicts a failure on this schedule, the real processes show none"})
         return "ok"
     bad = [f"worker {i + 1}: {r}" for i, r in enumerate(real) if r != "ok"]
+    if drv_exc:
+        bad.append(f"the creating context (process 0) failed: {drv_exc}")
     if not st_ok:
         bad.append("stored pages differ from what a single process leaves (" + json.dumps(case.get("store")) + ")")
     why = "; ".join(bad)
     devs = None
-    if predicted and list(predicted["res"]) == list(real) and bool(predicted["store"]) == st_ok:
+    if drv_exc:
+        pass
+    elif predicted and list(predicted["res"]) == list(real) and bool(predicted["store"]) == st_ok:
         devs = [DEV_OF_FLAG[f] for f in ("raced", "snapfail") if predicted[f]]
     elif verdict:
         # the performed trace, replayed through the model by TLC: it is explained when the
@@ -831,7 +991,18 @@ def judge(o: Outcome, case: dict, real: list, st_ok: bool, predicted, verdict, d
     if devs:
         o.classify(case, why, devs, cls="+".join(devs))
     else:
-        o.violation(dict(case, model=verdict), why + " (not explained by the as-is model)", cls="unexplained")
+        first = ""
+        if verdict and verdict["bad"]:
+            b = verdict["bad"][0]
+            who = "the creating context (process 0)" if b["p"] == 0 else f"worker {b['p']}"
+            if b["cls"] == "close" and str(b["r"]).startswith("touch:"):
+                first = (f"; first performed operation that is not a behaviour of the model: close_db_conn of {who} did "
+                         f"{str(b['r'])[6:]} on the database files (model: a closing context commits and closes its connection, nothing else)")
+            else:
+                first = (f"; first performed operation that is not a behaviour of the model: {b['cls']} of {who} -> {b['r']} "
+                         f"({b['why']}; model: {b['expected']})")
+        o.violation(dict(case, model=verdict), why + " (not explained by the as-is model" + first + ")",
+                    cls="unexplained" if case.get("kind") != "V-stress" else "unexplained (free-running)")
     return "bad"
 
 
@@ -839,7 +1010,8 @@ def pick(cases: list, budget: int, rng: random.Random) -> list:
     """Seeded sample that covers every (scenario, predicted outcome) class."""
     groups: dict = {}
     for c in cases:
-        k = (json.dumps(c["scn"], sort_keys=True), tuple(c["res"]), c["store"], c["raced"], c["snapfail"])
+        k = (json.dumps(c["scn"], sort_keys=True), tuple(c["res"]), c["store"], c["raced"], c["snapfail"],
+             json.dumps(c.get("life"), sort_keys=True))
         groups.setdefault(k, []).append(c)
     for g in groups.values():
         rng.shuffle(g)
@@ -858,21 +1030,26 @@ def run(tier: str) -> int:
     thorough = tier == "thorough"
     o.rule = (
         "G: a case = one TLC-generated schedule (sequence of (process, step)) of 2 workers (every start-up interleaving; every "
-        "page-work interleaving) or 3 workers (simulation), replayed on real processes; sampled by seed so that every "
-        "(scenario, predicted outcome) class is covered; distinct = distinct (scenario, performed operation trace); "
-        "V: stress runs of 2..16 free workers, distinct by (n, scenario, outcome). Non-trivial = two workers' operations interleave."
+        "page-work interleaving; every placement of the close_db_conn of the workers and of a creating context that is open "
+        "when they start, at most one worker at work at a time) or 3 workers (simulation), replayed on real processes; sampled by seed so that every "
+        "(scenario, predicted outcome, lifetime pattern) class is covered; distinct = distinct (scenario, performed operation trace); "
+        "V: stress runs of 2..16 free workers (tight starts with contexts held open; staggered starts with contexts closing early), distinct by (n, scenario, outcome). Non-trivial = two workers' operations interleave."
     )
     o.assumptions = [
         "schedule points are the wrapped environment operations (Path.exists/unlink/rename/replace, sqlite3.connect, execute/executescript/commit); "
         "consecutive operations of one class (reads, unlinks, scripts) of a process form one step",
         "offline Lua: Module:ustring:ustring and Module:libraryUtil are pure-Lua stand-ins stored in the test database",
+        "every context ends with close_db_conn; the creating context (scenarios drv) exists only without a backup file",
         "WAL journal mode (create_db sets it); busy timeout of the library's connections left at the sqlite3 default (5 s)",
     ]
     # ---- real runs first (the forking process must stay small) ------------------
     # schedules come from TLC, so generate them first but keep only what is needed
     rng = random.Random(common.seed() * 31 + 20)
     gens = []
-    for cfg, budget in (("Gen_Workers_startup.cfg", 9999 if thorough else 34), ("Gen_Workers_work.cfg", 9999 if thorough else 36)):
+    for cfg, budget in (("Gen_Workers_startup.cfg", 9999 if thorough else 34), ("Gen_Workers_work.cfg", 9999 if thorough else 44),
+                        ("Gen_Workers_life.cfg", 9999 if thorough else 40), ("Gen_Workers_life3.cfg", 600 if thorough else 0)):
+        if not budget:
+            continue
         r = tlc("Gen_Workers", cfg, workers=1, timeout=900)
         o.add_tlc(cfg[:-4], r)
         cases = r.cases
@@ -881,7 +1058,7 @@ def run(tier: str) -> int:
         del cases, r
     nsim = 800 if thorough else 14
     r = tlc("Gen_Workers", "Sim_Workers.cfg", workers=1, timeout=900,
-            extra=["-simulate", f"num={nsim}", "-depth", "45", "-seed", str(common.seed() + 20)])
+            extra=["-simulate", f"num={nsim}", "-depth", "52", "-seed", str(common.seed() + 20)])
     sim = list({json.dumps(c["sched"]): c for c in r.cases}.values())
     o.extra["generated_schedules"]["Sim_Workers(3 workers)"] = len(sim)
     gens += sim
@@ -898,7 +1075,12 @@ def run(tier: str) -> int:
         plan = []
         for sid in range(nstress):
             n = [2, 3, 4, 6, 8, 12, 16][sid % 7] if sid < 14 else srng.randint(2, 16)
-            plan.append((sid, n, srng.random() < 0.5, srng.random() < 0.4, srng.random() < 0.4))
+            plan.append((sid, n, srng.random() < 0.5, srng.random() < 0.4, srng.random() < 0.4, "hold", False))
+        # lifetimes: contexts (the creating one included) close while others work, others open later
+        lrng = random.Random(common.seed() * 19 + 5)
+        for k in range(60 if thorough else 4):
+            n = [3, 4, 6, 8][k % 4] if k < 8 else lrng.randint(2, 16)
+            plan.append((10000 + k, n, False, lrng.random() < 0.4, lrng.random() < 0.3, "mixed", k % 4 != 3))
         stress = pmap(stress_chunk, plan, nproc=3, chunk=1)
         # ---- contended first write (spec/LockWait.tla): the waiting worker must get the lock
         lw = tlc("LockWait", "MC_LockWait.cfg", workers=1)
@@ -935,7 +1117,7 @@ def run(tier: str) -> int:
     o.add_tlc("MC_ideal_3_bootcheck_never_hits", r)
     r = tlc("MC_Workers", "MC_Workers_asis_safe.cfg", workers=16, timeout=900)
     o.add_tlc("MC_asis_safe_3", r)
-    for demo in ("Demo_Workers_restorerace.cfg", "Demo_Workers_bootsnapshot.cfg"):
+    for demo in ("Demo_Workers_restorerace.cfg", "Demo_Workers_bootsnapshot.cfg", "Demo_Workers_closetidy.cfg"):
         d = tlc("MC_Workers", demo, workers=4, check=False)
         o.add_tlc(demo[:-4], d)
         o.extra.setdefault("demo_counterexample_found", {})[demo[:-4]] = bool(d.invariant_violated)
@@ -958,6 +1140,8 @@ def run(tier: str) -> int:
                       "real": rp["real"]})
     nrep = len(items)
     for st in stress:
+        if "error" in st:
+            raise RuntimeError("stress run failed: " + st["error"])
         items.append({"tid": len(items) + 1, "scn": st["scn"], "n": st["n"], "events": clean_events(st["trace"]), "real": st["real"]})
     verdicts = validate_traces(o, items, "Trace_Workers")
     o.traces += len(items)
@@ -967,7 +1151,7 @@ def run(tier: str) -> int:
         case = gens[rp["cid"]]
         v = verdicts[i + 1]
         cj = {"kind": "G", "scn": case["scn"], "workers": len(case["res"]), "sched": [[e["p"], e["l"]] for e in case["sched"]],
-              "orders": rp["orders"], "store": rp["store"], "excs": rp["excs"], "performed": clean_events(rp["trace"])}
+              "orders": rp["orders"], "store": rp["store"], "excs": rp["excs"], "drv_exc": rp["drv_exc"], "performed": clean_events(rp["trace"])}
         res = judge(o, cj, rp["real"], rp["store_ok"], case, v)
         stats["replay_" + res] += 1
         if rp["diverged"]:
@@ -995,14 +1179,14 @@ def run(tier: str) -> int:
             o.extra["stress_revalidation_failed"] = str(e)[:200]
     for j, st in enumerate(stress):
         v = verdicts[nrep + j + 1]
-        cj = {"kind": "V-stress", "scn": st["scn"], "workers": st["n"], "seed_id": st["sid"], "store": st["store"], "excs": st["excs"],
-              "real": st["real"]}
+        cj = {"kind": "V-stress", "scn": st["scn"], "workers": st["n"], "seed_id": st["sid"], "life": st["life"], "store": st["store"],
+              "excs": st["excs"], "drv_exc": st["drv_exc"], "real": st["real"]}
         # free-running: the linearisation is approximate; use it only to explain failures
         res = judge(o, cj, st["real"], st["store_ok"], None, v)
         stats["stress_" + res] += 1
         if v["bad"] and res == "ok":
             o.note_drift({"why": "linearised stress trace is not a behaviour of the model (approximate linearisation)", "n": st["n"], "first": v["bad"][:2]})
-        o.shape(("V", st["n"], json.dumps(st["scn"], sort_keys=True), tuple(sorted(set(st["real"]))), st["store_ok"]))
+        o.shape(("V", st["n"], json.dumps(st["scn"], sort_keys=True), st["life"], tuple(sorted(set(st["real"]))), st["store_ok"]))
     o.extra["judged"] = stats
     o.extra["stress_workers"] = sorted({st["n"] for st in stress})
     if replays:
@@ -1030,20 +1214,19 @@ def replay(path: str) -> int:
         key = (bool(case["scn"]["bak"]), bool(case["scn"]["boot"]))
         if case["kind"] == "G":
             sched = [(p, l) for p, l in case["sched"]]
-            trace, finals, store, diverged = run_controlled(scns[key], root / "d", case["workers"], sched, case["orders"], bool(case["scn"]["cursor"]), 1)
+            trace, finals, store, diverged = run_controlled(scns[key], root / "d", case["workers"], sched, case["orders"], bool(case["scn"]["cursor"]), 1,
+                                                            drv={"boot": key[1]} if case["scn"].get("drv") else None)
             real = [classify_worker(f, ref[key]["results"], o_) for f, o_ in zip(finals, case["orders"])]
             for e in trace:
                 print("  ", e)
         else:
-            rng = random.Random(common.seed() * 104729 + case["seed_id"])
             n = case["workers"]
-            orders = [rng.sample(titles(), NPAGES) for _ in range(n)]
-            offsets = [rng.random() * 0.02 for _ in range(n)]
-            trace, finals, store = run_free(scns[key], root / "d", n, orders, bool(case["scn"]["cursor"]), case["seed_id"], offsets)
+            orders, offsets, lives, drvp = stress_params(case["seed_id"], n, key[1], case.get("life", "hold"), bool(case["scn"].get("drv")))
+            trace, finals, store = run_free(scns[key], root / "d", n, orders, bool(case["scn"]["cursor"]), case["seed_id"], offsets, lives=lives, drv=drvp)
             real = [classify_worker(f, ref[key]["results"], o_) for f, o_ in zip(finals, orders)]
-        print("workers:", real, "exceptions:", [f and f["exc"] for f in finals])
+        print("workers:", real, "exceptions:", [f and f["exc"] for f in finals], "creating context:", finals.drv_exc)
         print("store unchanged:", store_ok(store, ref[key]), None if store is None else store["integrity"])
-        return 1 if any(r != "ok" for r in real) or not store_ok(store, ref[key]) else 0
+        return 1 if any(r != "ok" for r in real) or not store_ok(store, ref[key]) or finals.drv_exc else 0
 
 
 def selftest() -> int:
@@ -1058,6 +1241,9 @@ def selftest() -> int:
         ref = serial_reference(scns, root)
         _G.update(scns=scns, ref=ref, root=str(root))
         rp = replay_chunk([(0, case)])[0]
+        lr = tlc("Gen_Workers", "Gen_Workers_life.cfg", workers=1)
+        lcase = next(c for c in lr.cases if c["scn"]["drv"] and c["life"]["lateD"] and not c["scn"]["cursor"])
+        lrp = replay_chunk([(1, lcase)])[0]
     ev = clean_events(rp["trace"])
     item = {"tid": 1, "scn": case["scn"], "n": 2, "events": ev, "real": rp["real"]}
     good = validate_traces(o, [item], "st")[1]
@@ -1071,4 +1257,16 @@ def selftest() -> int:
     res_ok = judge(o2, {"kind": "G"}, rp["real"], rp["store_ok"], case, good)
     res_bad = judge(o2, {"kind": "G"}, ["ok", "missing"], rp["store_ok"], case, good)
     print("real outcome judged:", res_ok, "; corrupted worker result judged:", res_bad, "(violations:", len(o2.violations), ")")
-    return 0 if (not good["bad"] and bad["bad"] and res_ok == "ok" and res_bad == "bad" and o2.violations) else 1
+    # lifetimes: the close of the creating context while a worker is open, a later worker after it
+    lev = clean_events(lrp["trace"])
+    litem = {"tid": 1, "scn": lcase["scn"], "n": 2, "events": lev, "real": lrp["real"]}
+    lgood = validate_traces(o, [litem], "st_life")[1]
+    lbad_ev = json.loads(json.dumps(lev))
+    k = next(i for i, e in enumerate(lbad_ev) if e["cls"] == "close" and e["p"] == 0)
+    lbad_ev[k]["r"] = "touch:unlink:wal"
+    lbad = validate_traces(o, [dict(litem, events=lbad_ev)], "st_life_bad")[1]
+    print("lifetime schedule:", [[e["p"], e["l"]] for e in lcase["sched"]])
+    print("performed:", [(e["p"], e["cls"], e["r"]) for e in lev], "real:", lrp["real"], "store ok:", lrp["store_ok"])
+    print("unmodified: mismatches =", len(lgood["bad"]), "; close of the creating context reported to remove a side file:", lbad["bad"][:1])
+    life_ok = not lgood["bad"] and lbad["bad"] and lbad["bad"][0]["cls"] == "close" and all(x == "ok" for x in lrp["real"]) and lrp["store_ok"]
+    return 0 if (not good["bad"] and bad["bad"] and res_ok == "ok" and res_bad == "bad" and o2.violations and life_ok) else 1
